@@ -121,7 +121,7 @@ fn gen_c01(ctx: &mut Ctx) {
         a += astep;
     }
     // the Data constructor: accepted exactly up to 255 bytes
-    for len in [0usize, 1, 2, 16, 254, 255, 256, 257, 300, 511, 512, 1000, 65535, 65536, 100000] {
+    for len in [0usize, 1, 2, 16, 254, 255, 256, 257, 300, 511, 512, 767, 1000, 4351, 65535, 65536, 65537, 65791, 65792, 100000, 131072, 131327] {
         let line = format!("NEW {}", len);
         let res = ctx.case(line.clone(), true, "data-constructor");
         let ok = if len <= 255 { res == "OK" } else { res == format!("ER TOOLONG {}", len) };
@@ -131,10 +131,28 @@ fn gen_c01(ctx: &mut Ctx) {
 
 // ---------------------------------------------------------------------------------------------
 
+/// Reference encoder (independent of the implementation): inputs for decode-side cases must not
+/// depend on the implementation's own encoder being right.
+pub fn ref_encode(a: u16, t: u8, d: &[u8], nl: bool) -> Vec<u8> {
+    let mut bytes = vec![d.len() as u8, (a >> 8) as u8, (a & 0xFF) as u8, t];
+    bytes.extend_from_slice(d);
+    let sum: u32 = bytes.iter().map(|b| *b as u32).sum();
+    bytes.push(((256 - sum % 256) % 256) as u8);
+    let mut s = vec![b':'];
+    for b in &bytes {
+        s.push(b"0123456789ABCDEF"[(b >> 4) as usize]);
+        s.push(b"0123456789ABCDEF"[(b & 15) as usize]);
+    }
+    if nl {
+        s.extend_from_slice(b"\r\n");
+    }
+    s
+}
+
 fn encode_of(ctx_line: &str) -> Vec<u8> {
-    // helper: the implementation's own encoding, via the ENC case evaluator
-    let r = crate::eval::eval_case(ctx_line);
-    bytes_of_hex(r.split(' ').next().unwrap())
+    // "ENC a t data" -> reference encoding without newline
+    let t: Vec<&str> = ctx_line.split(' ').collect();
+    ref_encode(t[1].parse().unwrap(), t[2].parse().unwrap(), &bytes_of_hex(t[3]), false)
 }
 
 fn gen_c02(ctx: &mut Ctx) {
@@ -393,6 +411,46 @@ fn gen_c03(ctx: &mut Ctx) {
                             }
                         }
                     }
+                }
+            }
+        }
+    }
+    // 3b. multi-byte UTF-8 sequences a Unicode-aware matcher could take for a digit / hex letter
+    //     (non-ASCII decimal digits, full-width forms, look-alike letters), in place of one or two
+    //     characters of a valid frame
+    let lookalikes: Vec<&[u8]> = vec![
+        b"\xD9\xA0", b"\xD9\xA9", b"\xDB\xB0", b"\xDB\xB5", b"\xDF\x80", b"\xE0\xA5\xA6", b"\xE0\xA7\xAB",
+        b"\xEF\xBC\x90", b"\xEF\xBC\x99", b"\xEF\xBC\xA1", b"\xEF\xBC\xA6", b"\xEF\xBD\x81", b"\xEF\xBD\x86",
+        b"\xF0\x9D\x9F\x8E", b"\xF0\x9D\x9F\x97", b"\xC2\xB2", b"\xC2\xBD", b"\xE2\x85\xA0", b"\xCE\x91", b"\xD0\x90",
+        b"\xE2\x80\xA8", b"\xC2\x85", b"\xEF\xBB\xBF", b"\xE2\x84\xAA", b"\xC5\xBF", b"\xC0\xB0", b"\xE0\x80\xB0",
+    ];
+    for (ti, tpl) in templates.iter().enumerate().take(if ctx.tier_thorough { 8 } else { 3 }) {
+        let _ = ti;
+        for nl in [false, true] {
+            let mut v = tpl.clone();
+            if nl {
+                v.extend_from_slice(b"\r\n");
+            }
+            let n = v.len().min(40);
+            for i in 0..n {
+                for seq in &lookalikes {
+                    // one character replaced by the sequence
+                    let mut s = v[..i].to_vec();
+                    s.extend_from_slice(seq);
+                    s.extend_from_slice(&v[i + 1..]);
+                    dec_case(ctx, &s, "unicode-lookalike");
+                    // as many characters as the sequence has bytes replaced (length preserved)
+                    if i + seq.len() <= v.len() {
+                        let mut s = v[..i].to_vec();
+                        s.extend_from_slice(seq);
+                        s.extend_from_slice(&v[i + seq.len()..]);
+                        dec_case(ctx, &s, "unicode-lookalike");
+                    }
+                    // sequence inserted
+                    let mut s = v[..i].to_vec();
+                    s.extend_from_slice(seq);
+                    s.extend_from_slice(&v[i..]);
+                    dec_case(ctx, &s, "unicode-lookalike");
                 }
             }
         }
